@@ -403,6 +403,7 @@ class Ctx:
     def case(self, desc, nontrivial=True):
         """register an explored case for coverage accounting; desc must be hashable/serialisable"""
         self.cov['evaluations'] += 1
+        self.last_case = desc
         if nontrivial:
             h = hashlib.md5(repr(desc).encode()).hexdigest()
             self.distinct.add(h)
